@@ -761,3 +761,9 @@ impl<'t> LLKParser<'t> {
             })
     }
 }
+
+// Verification harnesses over this module's private parser state (engine K of /verif);
+// compiled only by `cargo kani`.
+#[cfg(kani)]
+#[path = "/verif/kani/parol_runtime/ll_steps.rs"]
+mod verif_ll_steps;
